@@ -28,14 +28,37 @@ func (c *Config) Desc() string {
 	if c.Timely {
 		m = "timely"
 	}
-	return fmt.Sprintf("%s/%s/%s@%s/wS=%v,wC=%v/ids=%s,%s/causes=%d", m, t, c.User, c.UserAt.Round(time.Second), c.WaitS, c.WaitC, c.IDSofC, c.IDCofS, len(c.Causes))
+	at := c.UserAt.Round(time.Second).String()
+	if c.UserAfter > 0 {
+		at = fmt.Sprintf("step%d", c.UserAfter)
+	}
+	return fmt.Sprintf("%s/%s/%s@%s/wS=%v,wC=%v/ids=%s,%s/causes=%d", m, t, c.User, at, c.WaitS, c.WaitC, c.IDSofC, c.IDCofS, len(c.Causes))
 }
 
 // expected outcome of the timely mode (DESIGN.md appendix D)
-func expect(c *Config) string {
+func expect(c *Config, userState, userStateC int) string {
 	trusted := c.Paired || c.Auto
 	reach := false
+	// a cancel is effective exactly while the server side listens in the hello phase (ready or
+	// pending); an approval of an already trusted client is harmless at any time
+	if c.User == "cancel" && (userState == 8 || userState == 11) {
+		return "neither-ended"
+	}
+	if c.UserAfter > 0 && !trusted && c.User == "approve" {
+		if userStateC == 14 || userStateC == 15 || userStateC == 39 {
+			// the client gave up already (its wait-for-ready timer expired): nothing left to approve
+			return "neither-ended"
+		}
+		if userState == 11 {
+			reach = true
+		} else if userState >= 0 && userState < 11 {
+			// approved before the request was pending: the hub's RegisterRemoteSKI makes the SKI
+			// trusted, so the hello phase goes straight to ready
+			reach = true
+		}
+	}
 	switch {
+	case reach:
 	case trusted:
 		reach = true
 	case !c.WaitS:
@@ -57,7 +80,7 @@ func expect(c *Config) string {
 			return "neither-ended"
 		}
 	}
-	if reach && (c.IDSofC == "wrong" || c.IDCofS == "wrong") {
+	if reach && (c.IDSofC == "wrong" || c.IDCofS == "wrong" || c.IDSofC == "case" || c.IDCofS == "case") {
 		return "id-mismatch"
 	}
 	return "both-complete"
@@ -91,8 +114,11 @@ func genConfig(r *vc.Rand, i int) *Config {
 	}
 	c.User = vc.Pick(r, []string{"approve", "approve", "cancel", "never"})
 	c.UserAt = genUserAt(r)
-	c.IDSofC = vc.Pick(r, []string{"none", "right", "right", "wrong"})
-	c.IDCofS = vc.Pick(r, []string{"none", "right", "right", "wrong"})
+	if r.Chance(1, 3) {
+		c.UserAfter = r.Range(1, 14)
+	}
+	c.IDSofC = vc.Pick(r, []string{"none", "right", "right", "wrong", "case"})
+	c.IDCofS = vc.Pick(r, []string{"none", "right", "right", "wrong", "case"})
 	c.Timely = i%2 == 0
 	if !c.Timely {
 		c.Choices = r.Range(5, 60)
@@ -113,7 +139,7 @@ func genConfig(r *vc.Rand, i int) *Config {
 
 func evaluate(col *vc.Collector, c *Config, res result) {
 	wit := func() any {
-		return map[string]any{"config": c, "choices": res.Choices, "S": res.S, "C": res.C, "log": simkit.Compact(res.Evs, 200)}
+		return map[string]any{"config": c, "choices": res.Choices, "S": res.S, "C": res.C, "user_state": res.UserState, "log": simkit.Compact(res.Evs, 200)}
 	}
 	for _, p := range props {
 		col.Eval(p, 1)
@@ -183,10 +209,32 @@ func evaluate(col *vc.Collector, c *Config, res result) {
 		col.Violation("C03", "setup-more-than-once", fmt.Sprintf("S %d C %d", s.Setups, cl.Setups), c.ID, wit())
 	}
 	if c.Timely && len(c.Causes) == 0 {
-		want := expect(c)
+		want := expect(c, res.UserState, res.UserStateC)
 		col.Class("C03", "timely:expected:"+want+":"+c.Desc()[7:strings.LastIndex(c.Desc(), "/ids")])
+		// was the approval given while a hello message of the client was still outstanding (its first
+		// hello not yet delivered, or its answer to a prolongation request in flight)? Then that hello
+		// reaches the server after it jumped into the protocol phase.
+		approvedBeforeHello := false
+		if c.User == "approve" && res.UserState == 11 {
+			approved := false
+			for _, e := range res.Evs {
+				if e.Who == "S" && e.Kind == "approve" {
+					approved = true
+				}
+				if approved && e.Who == "S" && e.Kind == "in" && e.B && strings.HasPrefix(e.S, "hello|") && (e.N == 13 || e.N == 18 || e.N == 20) {
+					approvedBeforeHello = true
+					break
+				}
+			}
+		}
 		bad := func(why string) {
+			if approvedBeforeHello && why == "not-both-complete" {
+				why = "approved-with-peer-hello-outstanding"
+			}
 			col.Violation("C03", "timely:"+want+":"+why, fmt.Sprintf("expected %s, observed %s", want, class), c.ID, wit())
+		}
+		if approvedBeforeHello {
+			col.Count("C03", "approved-while-pending-with-peer-hello-outstanding", 1)
 		}
 		switch want {
 		case "both-complete":
@@ -224,10 +272,10 @@ func evaluate(col *vc.Collector, c *Config, res result) {
 				bad("not-pending")
 			}
 		case "id-mismatch":
-			if c.IDSofC == "wrong" && (s.Complete || s.Setups > 0) {
+			if (c.IDSofC == "wrong" || c.IDSofC == "case") && (s.Complete || s.Setups > 0) {
 				bad("wrong-id-side-completed:S")
 			}
-			if c.IDCofS == "wrong" && (cl.Complete || cl.Setups > 0) {
+			if (c.IDCofS == "wrong" || c.IDCofS == "case") && (cl.Complete || cl.Setups > 0) {
 				bad("wrong-id-side-completed:C")
 			}
 			if !s.Ended || !cl.Ended {
